@@ -6,9 +6,12 @@
     pstr <bits16>         -> "<string text> <describe text>"   (number_to_string_b on any finite double)      (integer-valued double, |x| <= 2^53)
     s64rt <dec> / u64rt <dec> -> "<text> ok <dec>" | "<text> err"
     big <base> <ex> <hex> -> "n first d0 d1 ..."   (digit array after the scaling loops of convert)
+    den <base> <hex>      -> "<neg> <M> <b> <E>"   (the SPEC value `denote`, model only: compared with the generator's value)
+    st <base> <hex>       -> "ok <neg> <base> <ex> <n> <first> d0 d1 ..." | "err"   (scanner plumbing state handed to convert)
 -/
 import Driver.Util
 import JanetModel.Strtod.Model
+import JanetModel.Strtod.Denote
 open Driver JanetModel.Strtod
 
 def hex16 (n : Nat) : String :=
@@ -36,6 +39,24 @@ def step (_ : Unit) (toks : List String) : Unit × String :=
   | ["num", b] =>
     match b.toNat? with
     | some base => ((), match scanNumberBase [] base with | some bits => "ok " ++ hex16 bits | none => "err")
+    | none => ((), "bad-op")
+  | ["den", b, h] =>
+    match b.toNat?, bytesOfHex h with
+    | some base, some bs =>
+      let l := denote bs base
+      ((), s!"{if l.neg then 1 else 0} {l.M} {l.b} {l.E}")
+    | _, _ => ((), "bad-op")
+  | ["st", b, h] =>
+    match b.toNat?, bytesOfHex h with
+    | some base, some bs =>
+      match parseNumber bs base with
+      | some p => ((), String.intercalate " " ("ok" :: toString (if p.neg then 1 else 0) :: toString p.base :: toString p.ex ::
+                        toString p.mant.digits.length :: toString p.mant.first :: p.mant.digits.map toString))
+      | none => ((), "err")
+    | _, _ => ((), "bad-op")
+  | ["st", b] =>
+    match b.toNat? with
+    | some base => ((), match parseNumber [] base with | some _ => "ok" | none => "err")
     | none => ((), "bad-op")
   | ["i64", h] =>
     match bytesOfHex h with
